@@ -214,6 +214,18 @@ def run_spec(bounds, precision, as_array=False):
     if not (np.array_equal(np.asarray(sp.parameters_bounds, dtype=float), np.asarray(bounds, dtype=float))
             and np.array_equal(np.asarray(sp.parameters_precision, dtype=float), np.asarray(precision, dtype=float))):
         v.append(("stored-spec", "parameters_bounds/parameters_precision differ from the input"))
+    if as_array and not v:
+        # the caller's own arrays are handed over (no copy): they must come back untouched, and using them for further constructions
+        # (a repeated study) must give the same space every time
+        if not (np.array_equal(b, np.array(bounds, dtype=float)) and np.array_equal(p, np.array(precision, dtype=float))):
+            v.append(("input-modified", f"constructing the space modified the caller's arrays: bounds {b.tolist()} / precision {p.tolist()} for the specification bounds={bounds} precision={precision}"))
+        else:
+            for rep in range(2, 5):
+                sp2 = ss.SearchSpace(b, p, verbose=False)
+                if (sp2.space_size != sp.space_size or any(not np.array_equal(np.asarray(g1), np.asarray(g2)) for g1, g2 in zip(sp.param_grid, sp2.param_grid))
+                        or not np.array_equal(np.asarray(sp2.parameters_bounds, dtype=float), np.asarray(bounds, dtype=float)) or not np.array_equal(b, np.array(bounds, dtype=float))):
+                    v.append(("depends-on-earlier-constructions", f"construction #{rep} from the same arrays gives another space (or modifies them): bounds now {b.tolist()}, stored {np.asarray(sp2.parameters_bounds).tolist()} for bounds={bounds} precision={precision}"))
+                    break
     return v, "wellformed:" + "|".join(sorted(set(tags)))
 
 
